@@ -12,6 +12,7 @@ from ..core import Violation
 from ..detloop import DetLoop
 
 PID = 'C13'
+FAULT = 'application handler fault'
 KNOWN = set()
 EXHAUSTIVE = True
 EXHAUSTIVE_SCOPE = ('all 2**6 presence/absence combinations of the six kinds '
@@ -26,7 +27,9 @@ RULE = ('Every cell of the shape space above is executed (enumeration), and '
         "names (incl. '*', names with spaces / unicode, prefixes of each "
         'other) and argument lists. The event is delivered through '
         '_trigger_event and, on the servers, also as a real EVENT / CONNECT '
-        '/ DISCONNECT frame. Oracle: resolve() - the documented order written '
+        '/ DISCONNECT frame; the chosen target may raise or (coroutine) end '
+        'with CancelledError, after which no other target may be tried. '
+        'Oracle: resolve() - the documented order written '
         'from the property text - names the single target and its exact '
         'argument tuple; the invocation log must contain exactly that entry '
         '(or none). Non-trivial: >=2 candidate targets present, or the '
@@ -80,13 +83,18 @@ def strategy(tier):
         'cell': st.integers(0, len(cl) - 1), 'ns': ns, 'event': ev,
         'revent': rev, 'args': st.lists(S.tree_st(max_leaves=3), max_size=3),
         'method': st.sampled_from([True, True, False]),
-        'frame': st.booleans()}).map(lambda d: _norm(d, cl))
+        'frame': st.booleans(),
+        # the chosen target fails after it was invoked: it raises, or (a
+        # coroutine target) ends with CancelledError - no second target may
+        # be tried
+        'fault': st.sampled_from([None, None, None, 'raise', 'cancel'])}).map(
+            lambda d: _norm(d, cl))
 
 
 def _norm(d, cl):
     c = dict(cl[d['cell']])
     c.update(ns=d['ns'], args=d['args'], method=d['method'],
-             frame=d['frame'])
+             frame=d['frame'], fault=d.get('fault'))
     if c['reserved']:
         ev = d['revent']
         if ev == 'connect_error' and not c['cls'].endswith('Client'):
@@ -142,14 +150,25 @@ def _run(case, socketio, cls, aio, server, loop):
     present = case['present']
     log = []
 
+    fault = case.get('fault')
+    if fault == 'cancel' and not (case['coro'] and aio):
+        fault = 'raise'
+
     def mk(kind):
         if case['coro'] and aio:
             async def h(*a):
                 log.append((kind, a))
+                if fault == 'cancel' and kind != 'unrelated':
+                    import asyncio
+                    raise asyncio.CancelledError()
+                if fault and kind != 'unrelated':
+                    raise RuntimeError(FAULT)
                 return 'ret-' + kind
         else:
             def h(*a):
                 log.append((kind, a))
+                if fault and kind != 'unrelated':
+                    raise RuntimeError(FAULT)
                 return 'ret-' + kind
         return h
 
@@ -215,13 +234,18 @@ def _run(case, socketio, cls, aio, server, loop):
             raise Violation('wrong-arguments', '%s: %s%r, expected %r'
                             % (what, kind, log[0][1], wargs))
 
+    faulted = False
     try:
         ret = run(obj._trigger_event(event, ns, *args))
     except Exception as e:
-        v = core.as_violation(e)
-        if v is None:
-            raise
-        raise v
+        if fault and isinstance(e, RuntimeError) and str(e) == FAULT:
+            faulted = True
+            ret = None
+        else:
+            v = core.as_violation(e)
+            if v is None:
+                raise
+            raise v
     try:
         compare('_trigger_event')
     except Violation as v:
@@ -233,6 +257,16 @@ def _run(case, socketio, cls, aio, server, loop):
                 return labels
             raise Violation(KF_CLIENT, v.detail)
         raise
+    if fault:
+        if want is not None and fault == 'raise' and not faulted:
+            raise Violation('handler-exception-swallowed', repr(ret))
+        if want is not None and ret is not None:
+            raise Violation('return-value-after-fault', repr(ret))
+        labels = _labels(case)
+        labels['target_fault'] = fault
+        if want is not None:
+            labels['nontrivial'] = True
+        return labels
     if want is not None and ret != 'ret-' + want[0]:
         raise Violation('return-value-lost', repr(ret))
     # the same event as a real frame (servers, ordinary events)
